@@ -122,6 +122,7 @@ type ReqRes struct {
 	Matched bool     `json:"matched,omitempty"`
 	WriteErr string  `json:"write_err,omitempty"`
 	NilNoStop []int  `json:"nil_no_stop,omitempty"` // handlers that returned (nil, false)
+	OversizeOpts []int `json:"oversize_opts,omitempty"` // DHCPv6 options of the in-memory response whose encoding exceeds 65535 bytes
 	Burst *BurstRes  `json:"burst,omitempty"`
 }
 
@@ -483,6 +484,13 @@ func chainChild() {
 					rr.PreNil = true
 				} else {
 					rr.Pre6 = hex.EncodeToString(pre6.ToBytes())
+					if m, ok := pre6.(*dhcpv6.Message); ok {
+						for _, o := range m.Options.Options {
+							if len(o.ToBytes()) > 65535 {
+								rr.OversizeOpts = append(rr.OversizeOpts, int(o.Code()))
+							}
+						}
+					}
 				}
 			} else {
 				if pre4 == nil {
